@@ -995,3 +995,89 @@ Proof.
   exists w_hgone. split; [|split; reflexivity].
   apply (reachable_by_exploration cfg_repo (cinit false) 400). vm_compute. reflexivity.
 Qed.
+
+Lemma label_eq_dec (a b : label) : {a = b} + {a <> b}.
+Proof. decide equality. Defined.
+
+(** * 7. Hook pairing (C16, per connection): the monitor never rejects *)
+Lemma enc_hookst_inj : forall a b, enc_hookst a = enc_hookst b -> a = b. Proof. enum_inj. Qed.
+Lemma enc_mon_inj : forall a b, enc_mon a = enc_mon b -> a = b.
+Proof.
+  intros a b H. unfold enc_mon in H.
+  repeat match type of H with
+         | ppair _ _ = ppair _ _ => apply ppair_inj in H; let H1 := fresh "E" in destruct H as [H1 H]
+         end.
+  apply enc_hookst_inj in E. apply enc_bool_inj in E0. apply enc_bool_inj in E1. apply enc_bool_inj in E2. apply enc_bool_inj in H.
+  destruct a, b; cbn in *; subst; reflexivity.
+Qed.
+Lemma enc_mstate_inj : forall a b, enc_mstate a = enc_mstate b -> a = b.
+Proof.
+  intros [c q] [c' q'] H. unfold enc_mstate in H. apply ppair_inj in H. destruct H as [H1 H2].
+  cbn [fst snd] in *. apply enc_cstate_inj in H1. apply enc_mon_inj in H2. subst. reflexivity.
+Qed.
+
+Definition Mset : list mstate := fst (reach_set (mstep cfg_repo) enc_mstate 500 (cinit true, mon0)).
+Definition mon_cert : bool :=
+  mem_states enc_mstate Mset (cinit true, mon0)
+  && Lts.closed (mstep cfg_repo) enc_mstate Mset
+  && forallb (fun x => negb (m_bad (snd x))) Mset.
+Lemma mon_cert_ok : mon_cert = true.
+Proof. vm_compute. reflexivity. Qed.
+Global Opaque Mset.
+
+Lemma mon_never_bad tls x : reachable (mstep cfg_repo) (cinit tls, mon0) x -> m_bad (snd x) = false.
+Proof.
+  intros H. pose proof mon_cert_ok as Hc. unfold mon_cert in Hc.
+  apply andb_true_iff in Hc. destruct Hc as [Hc H3]. apply andb_true_iff in Hc. destruct Hc as [H1 H2].
+  apply (mem_states_In _ enc_mstate enc_mstate_inj) in H1.
+  assert (Hin : In x Mset).
+  { apply (closed_sound (mstep cfg_repo) enc_mstate enc_mstate_inj (cinit true, mon0) Mset H1 H2).
+    destruct tls; [exact H|].
+    eapply reachable_trans; [|exact H].
+    eapply reach_step; [apply reach_init|]. vm_compute. left. reflexivity. }
+  rewrite forallb_forall in H3. specialize (H3 x Hin). apply negb_true_iff in H3. exact H3.
+Qed.
+
+(** the ghost's event list drives the monitor exactly as the labels do *)
+Lemma mon_of_gupd l m g : mon_of (events (gupd l m g)) = mon_upd l (mon_of (events g)).
+Proof. destruct l; reflexivity. Qed.
+
+Lemma greachable_monitor A tls x :
+  reachable (gstep cfg_repo A) (ginit_state tls) x ->
+  reachable (mstep cfg_repo) (cinit tls, mon0) (fst x, mon_of (events (snd x))).
+Proof.
+  intros H. induction H as [|x y Hx IH Hy]; [apply reach_init|].
+  destruct (gstep_inv _ _ _ _ Hy) as [l [c' [m [Hin [-> _]]]]]. cbn [fst snd].
+  eapply reach_step; [exact IH|]. unfold mstep. cbn [fst snd].
+  rewrite mon_of_gupd. apply in_map_iff. exists (l, c'). split; [reflexivity|exact Hin].
+Qed.
+
+(** C16, per connection: the hook / handler / wg events of any execution satisfy the pairing
+    discipline checked by [trace_ok] *)
+Theorem hook_pairing : forall A tls x,
+  reachable (gstep cfg_repo A) (ginit_state tls) x -> trace_ok (rev (events (snd x))) = true.
+Proof.
+  intros A tls x H. unfold trace_ok. rewrite rev_involutive.
+  apply negb_true_iff. apply (mon_never_bad tls _ (greachable_monitor A tls x H)).
+Qed.
+
+(** what an accepted trace looks like: facts read off the monitor *)
+Lemma mon_term_once ev : m_bad (mon_of ev) = false -> count_occ label_eq_dec ev LTermHook <= 1.
+Proof.
+  assert (G : forall ev, m_bad (mon_of ev) = false ->
+              count_occ label_eq_dec ev LTermHook <= 1 /\
+              (m_term (mon_of ev) = false -> count_occ label_eq_dec ev LTermHook = 0)).
+  { clear ev. induction ev as [|l ev IH]; [cbn; split; [lia|reflexivity]|].
+    intros Hb. cbn [mon_of fold_right] in Hb. fold (mon_of ev) in Hb.
+    assert (Hb' : m_bad (mon_of ev) = false).
+    { destruct l; cbn in Hb; try exact Hb; repeat (apply orb_false_iff in Hb; destruct Hb as [Hb _]); exact Hb. }
+    destruct (IH Hb') as [I1 I2].
+    cbn [mon_of fold_right]. fold (mon_of ev).
+    destruct (label_eq_dec l LTermHook) as [->|Hne].
+    - cbn [count_occ]. destruct (label_eq_dec LTermHook LTermHook) as [_|N]; [|contradiction N; reflexivity].
+      cbn in Hb. repeat (apply orb_false_iff in Hb; destruct Hb as [Hb ?]).
+      split; [rewrite I2 by assumption; lia | cbn; intros D; discriminate D].
+    - rewrite count_occ_cons_neq by exact Hne.
+      split; [exact I1|]. intros D. apply I2. destruct l; cbn in D; try exact D. contradiction Hne; reflexivity. }
+  intros Hb. apply (G ev Hb).
+Qed.
